@@ -202,7 +202,8 @@ theorem CInv.updCorr {c : DCommit} {d : Descr} (h : CInv t₀ tx₀ del pend (fu
       intro x hx e; exact List.mem_map_of_mem (by simp [ctxOf, List.mem_filter, hx, e])
     obtain ⟨r1, r2, r3, r4, r5, r6⟩ := uc_loop (tx₀ := tx₀) (pend := pend) hd hk hnd h.cKeys (ctxOf c.t d.handle) c.tx
       (fun a _ => st a ∨ a = d.handle) hL h.ciKeys h.ci h.cRef
-    refine ⟨⟨h.dKeys, h.sKeys, h.cKeys, h.dOld, h.dSurv, h.dUp, h.dPar, h.pendFresh, h.creDone, ?_, ?_, ?_, ?_, r1, ?_⟩, r5, (by first | rfl | trivial)⟩
+    refine ⟨⟨h.dKeys, h.sKeys, h.cKeys, h.dOld, h.dSurv, h.dUp, h.dPar, h.pendFresh, h.creDone, ?_, ?_, ?_, ?_, r1, ?_, h.seen, by simp only [r4]; exact h.siOld0,
+      fun p hp ho => h.ciOld0 p (r6 p hp ho) ho⟩, r5, (by first | rfl | trivial)⟩
     · intro s hs
       obtain ⟨k, d', hd', e1, e2, e3⟩ := h.sRef s hs
       refine ⟨k, d', hd', e1, e2, ?_⟩
@@ -283,7 +284,7 @@ theorem CInv.updCorr {c : DCommit} {d : Descr} (h : CInv t₀ tx₀ del pend (fu
       have hm := dictGet_some_mem hg
       have hin : d.handle ∈ c.tx.sItems.map (·.1) := List.mem_map.2 ⟨_, hm, rfl⟩
       have hit := h.si _ hm
-      refine ⟨⟨h.dKeys, h.sKeys, h.cKeys, h.dOld, h.dSurv, h.dUp, h.dPar, h.pendFresh, h.creDone, ?_, hcr, ?_, ?_, h.ciKeys, hci⟩,
+      refine ⟨⟨h.dKeys, h.sKeys, h.cKeys, h.dOld, h.dSurv, h.dUp, h.dPar, h.pendFresh, h.creDone, ?_, hcr, ?_, ?_, h.ciKeys, hci, h.seen, ?_, h.ciOld0⟩,
         (by first | rfl | trivial), (by first | rfl | trivial)⟩
       · intro s hs
         obtain ⟨k, d', hd', e1, e2, e3⟩ := h.sRef s hs
@@ -296,13 +297,17 @@ theorem CInv.updCorr {c : DCommit} {d : Descr} (h : CInv t₀ tx₀ del pend (fu
         rcases mem_dictSet hp with rfl | ⟨hne, hp⟩
         · refine ⟨hit.dh, hit.old, hit.kind, hit.nd, hit.bump, .inl ⟨d, hd, rfl, hk, fun _ => rfl⟩⟩
         · exact hsi p hp hne
+      · intro p hp ho
+        rcases mem_dictSet hp with rfl | ⟨_, hp⟩
+        · exact h.siOld0 (d.handle, it) hm ho
+        · exact h.siOld0 p hp ho
     | none =>
       simp only
       have hnk := dictGet_none_iff.1 hg
       cases hf : findS c.t d.handle with
       | none =>
         simp only
-        refine ⟨⟨h.dKeys, h.sKeys, h.cKeys, h.dOld, h.dSurv, h.dUp, h.dPar, h.pendFresh, h.creDone, ?_, hcr, h.siKeys, ?_, h.ciKeys, hci⟩,
+        refine ⟨⟨h.dKeys, h.sKeys, h.cKeys, h.dOld, h.dSurv, h.dUp, h.dPar, h.pendFresh, h.creDone, ?_, hcr, h.siKeys, ?_, h.ciKeys, hci, h.seen, h.siOld0, h.ciOld0⟩,
           (by first | rfl | trivial), (by first | rfl | trivial)⟩
         · intro s hs
           obtain ⟨k, d', hd', e1, e2, e3⟩ := h.sRef s hs
@@ -317,7 +322,7 @@ theorem CInv.updCorr {c : DCommit} {d : Descr} (h : CInv t₀ tx₀ del pend (fu
         have hs' := findS_some hf
         obtain ⟨ks, _⟩ := h.sRef s hs'.2
         refine ⟨⟨h.dKeys, h.sKeys, h.cKeys, h.dOld, h.dSurv, h.dUp, h.dPar, h.pendFresh, h.creDone, ?_, hcr,
-          dictSet_keys_nodup h.siKeys _ _, ?_, h.ciKeys, hci⟩, (by first | rfl | trivial), (by first | rfl | trivial)⟩
+          dictSet_keys_nodup h.siKeys _ _, ?_, h.ciKeys, hci, h.seen, ?_, h.ciOld0⟩, (by first | rfl | trivial), (by first | rfl | trivial)⟩
         · intro s' hs''
           obtain ⟨k, d', hd', e1, e2, e3⟩ := h.sRef s' hs''
           refine ⟨k, d', hd', e1, e2, ?_⟩
@@ -331,5 +336,9 @@ theorem CInv.updCorr {c : DCommit} {d : Descr} (h : CInv t₀ tx₀ del pend (fu
           · refine ⟨hs'.1, hf.symm, ks, hnd, ⟨?_, by simp [hf]⟩, .inl ⟨d, hd, rfl, hk, fun _ => rfl⟩⟩
             intro o ho; rw [hf] at ho; cases ho; simp
           · exact hsi p hp hne
+        · intro p hp ho
+          rcases mem_dictSet hp with rfl | ⟨_, hp⟩
+          · cases ho
+          · exact h.siOld0 p hp ho
 
 end Sdc.Mdib
